@@ -276,3 +276,53 @@ func GainMaps(w, h, levels int, exact bool) [][]float64 {
 	gainMu.Unlock()
 	return G
 }
+
+// OpenJPEGHighGain is the net gain the library's (OpenJPEG-derived) synthesis applies to
+// every high-pass sample per 1-D pass relative to the exact transform: its inverse scales
+// high-pass samples by the constant 1.625732422 ("opj two_invK") where 2/K = 1.625786132.
+const OpenJPEGHighGain = 1.625732422 * 1.230174105 / 2
+
+// Inverse97HighGain is Inverse97 with every high-pass input of every 1-D pass multiplied
+// by hg first; with hg = 1 it is Inverse97.
+func Inverse97HighGain(c []float64, w, h, levels int, hg float64) {
+	buf := make([]float64, max(w, h))
+	scale := func(b []float64) {
+		for i := 1; i < len(b); i += 2 {
+			b[i] *= hg
+		}
+	}
+	for l := levels; l >= 1; l-- {
+		rw, rh := levelDims(w, h, l-1)
+		lw, lh := (rw+1)/2, (rh+1)/2
+		for x := 0; x < rw; x++ {
+			for y := 0; y < rh; y++ {
+				src := y / 2
+				if y%2 == 1 {
+					src = lh + y/2
+				}
+				buf[y] = c[src*w+x]
+			}
+			if rh > 1 {
+				scale(buf[:rh])
+			}
+			inv97(buf[:rh], false)
+			for y := 0; y < rh; y++ {
+				c[y*w+x] = buf[y]
+			}
+		}
+		for y := 0; y < rh; y++ {
+			for x := 0; x < rw; x++ {
+				src := x / 2
+				if x%2 == 1 {
+					src = lw + x/2
+				}
+				buf[x] = c[y*w+src]
+			}
+			if rw > 1 {
+				scale(buf[:rw])
+			}
+			inv97(buf[:rw], false)
+			copy(c[y*w:y*w+rw], buf[:rw])
+		}
+	}
+}
